@@ -5,7 +5,8 @@
 set -eu
 export GOFLAGS=-mod=mod GOPROXY=off GOSUMDB=off GOTOOLCHAIN=local CGO_ENABLED=1
 REPO=${VERIF_REPO:-/repo}
-cd /verif/harness
+VERIF=$(cd "$(dirname "$0")/.." && pwd)
+cd "$VERIF/harness"
 python3 - "$REPO" <<'PY'
 import re,sys
 repo=sys.argv[1]
@@ -21,5 +22,5 @@ try: oldsum=open('go.sum').read()
 except FileNotFoundError: oldsum=None
 if oldsum is None or not oldsum.startswith(sumsrc[:200]) or len(oldsum)<len(sumsrc): open('go.sum','w').write(sumsrc)
 PY
-mkdir -p /verif/.work
-go build -o /verif/.work/harness . 
+mkdir -p "$VERIF/.work"
+go build -o "$VERIF/.work/harness" . 
